@@ -215,6 +215,9 @@ func (e *SpecEnv) objTerm(obj types.Object) (Term, bool) {
 		}
 		return Term{}, false
 	case *types.Const:
+		if k, ok := e.x.symConst[o]; ok {
+			return Term{S: k, Sort: "Int", T: o.Type()}, true
+		}
 		return constTerm(e.x.ctx, o.Val(), o.Type()), true
 	}
 	return Term{}, false
@@ -729,7 +732,7 @@ func (e *SpecEnv) call(n *ast.CallExpr) Term {
 		}
 		if a.T != nil {
 			if arr, ok := a.T.Underlying().(*types.Array); ok && arr.Len() > 0 {
-				return mkInt(arr.Len())
+				return Term{S: x.arrayLen(arr), Sort: "Int", T: intT}
 			}
 			if mt, ok := a.T.Underlying().(*types.Map); ok {
 				return x.mapLen(e.st, a, mt)
